@@ -315,10 +315,36 @@ func genCache(t *rapid.T) CacheCase {
 			base[i] = math.Float64bits(rapid.Float64Range(-1000, 1000).Draw(t, "f"))
 		}
 	}
+	// in a quarter of the cases the base is an arithmetic progression of bit patterns: then multisets
+	// with REPEATED elements of the base have the same length and the same sum ({x-d,x,x+d} ~ {x,x,x},
+	// {x,x+d,x+2d,x+3d} ~ {x,x,x+3d,x+3d}) without being permutations of it
+	ap := rapid.IntRange(0, 3).Draw(t, "ap") == 0
+	if ap {
+		x := math.Float64bits(float64(rapid.IntRange(1, 9).Draw(t, "apx")))
+		if rapid.Bool().Draw(t, "apns") {
+			x = uint64(rapid.IntRange(1000, 5000).Draw(t, "apxns"))
+		}
+		d := uint64(rapid.IntRange(1, 64).Draw(t, "apd"))
+		n := rapid.IntRange(3, 4).Draw(t, "apn")
+		base = base[:0]
+		for i := 0; i < n; i++ {
+			base = append(base, x+uint64(i)*d)
+		}
+	}
 	nh := rapid.IntRange(2, 6).Draw(t, "nh")
 	for h := 0; h < nh; h++ {
 		bits := append([]uint64(nil), base...)
-		switch rapid.IntRange(0, 5).Draw(t, "variant") {
+		variant := rapid.IntRange(0, 5).Draw(t, "variant")
+		if ap && rapid.Bool().Draw(t, "apvariant") {
+			variant = 6
+		}
+		switch variant {
+		case 6: // same length, same sum, every element a member of the base, repeated elements
+			if len(bits) == 3 {
+				bits = []uint64{bits[1], bits[1], bits[1]}
+			} else if len(bits) == 4 {
+				bits = []uint64{bits[0], bits[0], bits[3], bits[3]}
+			}
 		case 0: // identical
 		case 1: // permutation
 			bits = rapid.Permutation(bits).Draw(t, "perm")
